@@ -97,6 +97,11 @@ class PoolAdapter(Adapter):
         bins = pairs if (self.spelling % 2 or not consecutive(L)) else np.array([pairs[0][0]] + [p[1] for p in pairs])
         return self.physt.h1(vals, bins, keep_missed=s["keep"], name=f"n{s['name']}" if s["name"] else None, **kw)
 
+    def _free(self, on):
+        import contextlib
+        from physt.config import config
+        return config.enable_free_arithmetics() if on else contextlib.nullcontext()
+
     def apply(self, real, action, args, pre):
         obs = {"exc": None, "ret": None}
         o = real
@@ -160,12 +165,14 @@ class PoolAdapter(Adapter):
                 elif what == "sub_array":
                     obs["ret"] = h - arr
             elif action == "Sub":
-                i, j, k = args
-                o[k] = o[i] - o[j]
+                i, j, k, free = args
+                with self._free(free):          # free arithmetics on: another branch of __isub__
+                    o[k] = o[i] - o[j]
             elif action in ("ISub", "ISubRefused"):
-                i, j = args
+                i, j = args[0], args[1]
                 x = o[i]
-                x -= o[j]
+                with self._free(action == "ISub" and args[2]):
+                    x -= o[j]
                 o[i] = x
             elif action == "Mul":
                 i, c, k, refl = args
@@ -511,11 +518,16 @@ class PoolAdapter(Adapter):
             return f"{r['dtype']}{'k' if r['keep'] else 'n'}{'d' if r['den'] != 1 else ''}{'s' if r['stv'] == 'ok' else 'x'}{len(r['bins'])}"
         if action == "New":
             s = args[1]
-            return f"New/{s['dtype']}/{'w' if s['weighted'] else 'u'}/{'keep' if s['keep'] else 'nokeep'}/{len(s['batch'])}"
+            sub = ""
+            if not consecutive(s["L"]):
+                e = np.array(self.pe.edges(s["L"]))
+                # physt's is_consecutive uses numpy.allclose (atol 1e-8, rtol 1e-5): gaps below that are not seen
+                sub = "/~subtol" if np.allclose(e[1:, 0], e[:-1, 1], 1.0e-5, 1.0e-8) else "/gapped"
+            return f"New/{s['dtype']}/{'w' if s['weighted'] else 'u'}/{'keep' if s['keep'] else 'nokeep'}/{len(s['batch'])}{sub}"
         if action in ("Add", "Sub"):
-            return f"{action}/{kind(args[0])}/{kind(args[1])}/{'self' if args[0] == args[1] else 'other'}"
+            return f"{action}/{kind(args[0])}/{kind(args[1])}/{'self' if args[0] == args[1] else 'other'}" + ("/free" if action == "Sub" and args[3] else "")
         if action in ("IAdd", "ISub", "AddRefused", "IAddRefused", "ISubRefused"):
-            return f"{action}/{kind(args[0])}/{kind(args[1])}/{'self' if args[0] == args[1] else 'other'}"
+            return f"{action}/{kind(args[0])}/{kind(args[1])}/{'self' if args[0] == args[1] else 'other'}" + ("/free" if action == "ISub" and args[2] else "")
         if action == "ForeignRefused":
             return f"ForeignRefused/{args[1]}/{kind(args[0])}"
         if action in ("Mul", "IMul", "Div", "IDiv"):
